@@ -207,3 +207,24 @@ def load(config="ws"):
     if d not in _PROGRAMS:
         _PROGRAMS[d] = Program(d)
     return _PROGRAMS[d]
+
+
+def decode_struct_array(P, value_key, adt_key):
+    """Decode a `[Struct; N]` static whose fields are plain integers, using the layout facts."""
+    a = P.adt(adt_key)
+    size = a["size"]
+    fields = a["variants"][0]["fields"]
+    raw = P.value_bytes(value_key)
+    if len(raw) % size:
+        raise AnchorError(f"{value_key}: size {len(raw)} not a multiple of {adt_key} ({size})")
+    out = []
+    for i in range(0, len(raw), size):
+        e = {}
+        for f in fields:
+            tj = f["tj"]
+            if tj["k"] != "int":
+                raise AnchorError(f"{adt_key}.{f['name']} is not an integer")
+            w = tj["bits"] // 8
+            e[f["name"]] = int.from_bytes(raw[i + f["offset"]: i + f["offset"] + w], "little")
+        out.append(e)
+    return out
